@@ -42,7 +42,10 @@ RULE = ("a case = (script, fault map): the script fixes mode (foreground/daemon,
         "firewall.main() reads the dialogue the real FirewallClient wrote for every combination of IPv4/IPv6 "
         "subnets and name servers, then EOF / HOST lines / a bad line / a cut, with a fault at each of its own "
         "steps (each family's set-up and restore, hosts file, resolver cache, STARTED write) and pairs of them — "
-        "every family that was set up must have its restore attempted; init strings next to the genuine one (every "
+        "every family that was set up must have its restore attempted; the real ssh.connect() with a real child "
+        "standing in for ssh (sync string + ROUTES, idle or busy, then exit 0 / exit 255 / SIGKILL), real socketpair, "
+        "real select, real listeners, under a 3 s watchdog — the client must end with Fatal and close the helper "
+        "channel; init strings next to the genuine one (every "
         "single-byte substitution by digits/sign/underscore/blank/CR/LF/TAB/NUL, truncations, other spellings "
         "of the version) each followed by a good ROUTES frame, and each with nothing after the 12 bytes (the ssh "
         "pipe is a BLOCKING stream: a read on the exhausted stream of a live ssh never returns and is a verdict, "
@@ -121,6 +124,7 @@ class _Stuck(BaseException):
 T0 = 1700000000.0          # fake clock origin (s)
 TICK = 0.001               # every top-level select costs this much fake time
 WATCHDOG_S = 20            # wall clock per run (shrinks after the first hit, see watchdog_seconds)
+REALSSH_WATCHDOG_S = 3.0   # wall clock for a session against a real stand-in ssh child
 EOF_READ_BUDGET = 300      # reads of the ssh pipe after it reached EOF
 CALL_BUDGET = 60000        # boundary calls per run
 EVENT_BUDGET = 200000      # trace entries per run
@@ -633,11 +637,13 @@ def _mods():
     import sshuttle.ssh as ssh
     import sshuttle.sdnotify as sdnotify
     from sshuttle.methods import BaseMethod
+    if not hasattr(ssnet, '_c12_real_set_non_blocking_io'):
+        ssnet._c12_real_set_non_blocking_io = ssnet.set_non_blocking_io
     ssnet.set_non_blocking_io = lambda fd: None   # fake files have no real descriptor
     return ssnet, client, helpers, ssh, sdnotify, BaseMethod
 
 
-def run_real(script, faults, realfw=False, level=None):
+def run_real(script, faults, realfw=False, level=None, realssh=False):
     """Run the real client.main on the scripted world.  Returns (events, outcome, world).
     `realfw`: the real FirewallClient (__init__/setup/start/done) over a real socketpair to a
     HelperStandIn instead of the recording subclass."""
@@ -743,6 +749,26 @@ def run_real(script, faults, realfw=False, level=None):
         w.call('connect')
         return SshProc(w), PipeR(w), PipeW(w)
 
+    real_connect = ssh.connect
+    children = []
+
+    def connect_real(*a, **k):
+        # the REAL ssh.connect(): real socketpair, real Popen of the stand-in child
+        w.mark('connect')
+        p, rfile, wfile = real_connect(*a, **k)
+        children.append(p)
+        real_poll = p.poll
+
+        def poll():
+            rv = real_poll()
+            w.mark('poll' if rv is None else 'poll=%d' % rv)
+            w.probe_times.append(w.now)
+            if not w.polled0:
+                w.polled0 = True
+            return rv
+        p.poll = poll
+        return p, rfile, wfile
+
     def notify(*messages):
         if b'READY=1' in messages:
             w.call('ready')
@@ -805,6 +831,15 @@ def run_real(script, faults, realfw=False, level=None):
     ssnet.log = wlog
     sdnotify.send = notify
     os.kill = kill
+    if realssh:
+        # real ssh.connect, real child, real descriptors, real select, real listeners, real clock
+        ssh.connect = connect_real
+        ssnet.select = s_select
+        os.kill = real_kill
+        client.time = s_time
+        client.MultiListener = OrigListener
+        ssnet.set_non_blocking_io = ssnet._c12_real_set_non_blocking_io
+        signal.setitimer(signal.ITIMER_REAL, REALSSH_WATCHDOG_S)
     # order matters: a garbage collection in between must not log to the real stderr
     sys.stderr = EioStderr() if w.level == 13 else io.StringIO()
     sys.stdout = Stdout(w)
@@ -814,7 +849,7 @@ def run_real(script, faults, realfw=False, level=None):
     try:
         try:
             rv = client.main(
-                None, ('127.0.0.1', 0), None, 'host', None, bool(script['lat']), 32768, False,
+                None, ('127.0.0.1', 0), script.get('ssh_cmd'), 'host', None, bool(script['lat']), 32768, False,
                 [(2, '10.0.0.%d' % (i + 1)) for i in range(script['ns'])],
                 'fake', (['h%d' % i for i in range(script['seed'])] if script['seed'] is not None else None),
                 False, bool(script['auto']),
@@ -831,6 +866,17 @@ def run_real(script, faults, realfw=False, level=None):
             setattr(client, k, v)
         signal.setitimer(signal.ITIMER_REAL, 0)
         signal.signal(signal.SIGALRM, old_alarm)
+        ssnet.set_non_blocking_io = lambda fd: None
+        w.child_status = []
+        for p in children:
+            try:
+                p.kill()
+            except OSError:
+                pass
+            try:
+                w.child_status.append(subprocess.Popen.wait(p, timeout=5))
+            except Exception:  # noqa
+                w.child_status.append('?')
         client.ssubprocess, client.is_admin_user, client.get_method = s_sub, s_admin, s_getm
         client.time = s_time
         ssh.connect, ssnet.runonce, ssnet.select, ssnet.log, sdnotify.send = \
@@ -1753,6 +1799,80 @@ def helper_stream(ctx):
     ctx.sample(dict(stream='helper end of the channel', case=case, real_code_history=' '.join(log)), limit=10)
 
 
+# ------------------------------------------------------------------ the real ssh.connect() and a real child
+
+STANDIN = '''
+import os, sys, time, struct, signal
+o = sys.stdout.buffer
+o.write(bytes.fromhex(%(hello)r)); o.flush()
+t = time.time() + %(idle)r
+while time.time() < t:
+    if %(busy)r:
+        o.write(bytes.fromhex(%(ping)r)); o.flush()
+    time.sleep(0.01)
+m = %(mode)r
+if m == "kill9":
+    os.kill(os.getpid(), signal.SIGKILL)
+os._exit(0 if m == "exit0" else 255)
+'''
+
+
+def realssh_cases(ssnet, seed, thorough):
+    hello = (b'\0\0' + SYNC + fr(0, ssnet.CMD_ROUTES, b'2,10.0.0.0,8\n')).hex()
+    ping = fr(0, ssnet.CMD_PING, b'keepalive').hex()
+    allc = [('exit0', 0), ('exit255', 1), ('kill9', 0), ('exit0', 1), ('exit255', 0), ('kill9', 1)]
+    if not thorough:
+        k = (seed % 2) * 3
+        allc = allc[k:k + 3]
+    out = []
+    for mode, busy in allc:
+        code = STANDIN % dict(hello=hello, idle=0.12, busy=busy, ping=ping, mode=mode)
+        import shlex
+        cmd = '%s -c %s' % (shlex.quote(sys.executable), shlex.quote(code))
+        out.append(dict(daemon=0, udp=0, lat=1, auto=0, seed=None, inc=1, exc=0, ns=0, poll0=None, line=b'STARTED\n',
+                        hpoll=None, wait=0, end='kbint', hs=[], steps=[], ssh_cmd=cmd, standin=dict(mode=mode, busy=busy)))
+    return out
+
+
+def oracle_realssh(s, ev, outcome, w):
+    bad = []
+    st = s['standin']
+    what = 'stand-in ssh (%s, %s tunnel) exit status %r' % (st['mode'], 'busy' if st['busy'] else 'idle', w.child_status)
+    if 'ready' not in ev and not w.stuck and outcome != 'exc=fatal':
+        bad.append(('C12:real-ssh:session-did-not-start', 'the session reaches READY against the stand-in ssh',
+                    '%s; outcome %s; trace: %s' % (what, outcome, ' '.join(ev[-30:]))))
+    if w.stuck or outcome != 'exc=fatal' or 'close' not in ev:
+        bad.append(('C12:real-ssh:death-not-noticed',
+                    'after the real ssh child has exited the client ends with Fatal within %.0f s and closes the helper channel'
+                    % REALSSH_WATCHDOG_S,
+                    '%s; client %s, outcome %s, pfile %s; tail of trace: %s'
+                    % (what, ('aborted by the watchdog (%s)' % w.stuck[0]) if w.stuck else 'ended', outcome,
+                       'closed' if ('close' in ev and not w.stuck) else 'open at that time', ' '.join(ev[-14:]))))
+    return bad
+
+
+def realssh_stream(ctx):
+    """The ssh-side sibling of the real-helper stream: the REAL ssh.connect() starts a real child that
+    speaks the sync string and a ROUTES frame, stays idle or busy, then exits 0 / 255 / is SIGKILLed; real
+    select, real descriptors.  The client must notice and close the helper channel."""
+    ssnet = _mods()[0]
+    fds0 = nfds()
+    for s in realssh_cases(ssnet, ctx.seed, ctx.thorough):
+        ev, outcome, w = run_real(s, {}, realssh=True)
+        ctx.count()
+        ctx.hist('real-ssh')
+        ctx.hist('real-ssh:%s:%s' % (s['standin']['mode'], 'busy' if s['standin']['busy'] else 'idle'))
+        ctx.mark(('realssh', repr(s['standin'])), nontrivial=True)
+        for key, exp, obs in oracle_realssh(s, ev, outcome, w):
+            ctx.violation(key, case=dict(realssh=True, script=ser_script(s), faults={}, level=w.level),
+                          expected=exp, observed=obs, kind='history')
+        ctx.sample(dict(stream='real ssh.connect + real child', standin=s['standin'],
+                        real_code_trace=' '.join(ev[-16:]) + ' ' + outcome), limit=12)
+    gc.collect()
+    if nfds() > fds0 + 1:
+        ctx.notes.append('real-ssh stream: descriptors %d -> %d' % (fds0, nfds()))
+
+
 def nfds():
     return len(os.listdir('/proc/self/fd'))
 
@@ -1793,6 +1913,7 @@ def run(ctx):
     realfw_stream(ctx)
     timed_stream(ctx)
     helper_stream(ctx)
+    realssh_stream(ctx)
     cases = gen_cases(ctx)
     for c in cases:
         ctx.mark(c.line, nontrivial=(0 not in c.faults))
@@ -1819,6 +1940,11 @@ def replay(ctx, rep):
     s = deser_script(case['script'])
     faults = {int(k): v for k, v in case['faults'].items()}
     level = case.get('level', 0)
+    if case.get('realssh'):
+        ev, outcome, w = run_real(s, {}, realssh=True, level=level)
+        bad = oracle_realssh(s, ev, outcome, w)
+        return bool(bad), 'trace: %s %s; oracle: %s' % (' '.join(ev[-20:]), outcome,
+                                                        '; '.join('%s (%s)' % (b[0], b[2][:200]) for b in bad) or 'silent')
     if case.get('realfw'):
         ev, outcome, w = run_real(s, faults, realfw=True, level=level)
         bad = oracle_realfw(s, faults, ev, outcome, w)
